@@ -311,6 +311,8 @@ class Canon:
                 return ast.Constant(v)
             if isinstance(v, (tuple, list)) and 0 < len(v) <= 16 and all(isinstance(x, (int, bytes, str)) and not isinstance(x, bool) for x in v):
                 return (ast.List if isinstance(v, list) else ast.Tuple)([ast.Constant(x) for x in v], ast.Load())
+            if isinstance(v, range) and v.step == 1:
+                return ast.Call(ast.Name("range", ast.Load()), [ast.Constant(v.start), ast.Constant(v.stop)] if v.start else [ast.Constant(v.stop)], [])
             if isinstance(v, (tuple, list)) and _plain_table(v):
                 lit = lambda x: ast.Constant(x) if not isinstance(x, (tuple, list)) else (ast.List if isinstance(x, list) else ast.Tuple)([lit(y) for y in x], ast.Load())
                 return lit(v)
@@ -708,7 +710,13 @@ def _cmp_atoms(canon, left, op, right, leaf):
         f = leaf(ast.Compare(left, [ast.Is()], [right]), "%s is %s" % (lt, rt))
         return f if isinstance(op, ast.Is) else f_not(f)
     if isinstance(op, (ast.In, ast.NotIn)):
-        if isinstance(right, (ast.Tuple, ast.List, ast.Set)) and 0 < len(right.elts) <= 12:
+        if isinstance(right, ast.Call) and isinstance(right.func, ast.Name) and right.func.id == "range" and not right.keywords and len(right.args) in (1, 2) \
+                and (norm(left).startswith("len(") or canon.int_name(norm(left))):
+            # membership of an integer in a contiguous range is two comparisons
+            lo = right.args[0] if len(right.args) == 2 else ast.Constant(0)
+            hi = right.args[-1]
+            f = f_and(_cmp_atoms(canon, left, ast.GtE(), lo, leaf), _cmp_atoms(canon, left, ast.Lt(), hi, leaf))
+        elif isinstance(right, (ast.Tuple, ast.List, ast.Set)) and 0 < len(right.elts) <= 12:
             f = f_or(*[_cmp_atoms(canon, left, ast.Eq(), x, leaf) for x in right.elts])
         elif isinstance(right, ast.Constant) and isinstance(right.value, (str, bytes)) and isinstance(left, ast.Constant):
             f = True if left.value in right.value else False
@@ -1699,6 +1707,8 @@ def make_const_of(ctx, fi, tables=False):
                         v = val
                     elif tables and isinstance(val, (tuple, list)) and _plain_table(val):
                         v = val         # only for rules that read one function (the reference files do not carry such tables)
+                    elif tables and isinstance(val, range) and val.step == 1:
+                        v = val
                 except Exception:
                     v = None
         cache[t] = v
@@ -3084,6 +3094,119 @@ def _condition_mutation(f_code, f_ref, all_code=None, all_ref=None, extra=()):
     return False
 
 
+def _source_tokens(fn):
+    """the function as the transcriptions keep it (no docstrings, annotations, decorators, exception messages), as tokens"""
+    import copy
+    import io
+    import tokenize
+    node = copy.deepcopy(fn)
+    node.decorator_list = []
+    node.name = "f"
+    for x in ast.walk(node):
+        if isinstance(x, (ast.FunctionDef, ast.AsyncFunctionDef, ast.Lambda)):
+            a = x.args
+            for arg in a.args + a.kwonlyargs + a.posonlyargs + ([a.vararg] if a.vararg else []) + ([a.kwarg] if a.kwarg else []):
+                arg.annotation = None
+            if not isinstance(x, ast.Lambda):
+                x.returns = None
+                x.decorator_list = []
+        if isinstance(x, (ast.FunctionDef, ast.AsyncFunctionDef, ast.ClassDef)) and x.body and isinstance(x.body[0], ast.Expr) and isinstance(x.body[0].value, ast.Constant) \
+                and isinstance(x.body[0].value.value, str):
+            x.body = x.body[1:] or [ast.Pass()]
+        if isinstance(x, ast.Raise) and isinstance(x.exc, ast.Call):
+            x.exc.args = []
+            x.exc.keywords = []
+
+    class T(ast.NodeTransformer):
+        def visit_AnnAssign(self, n):
+            if n.value is None:
+                return None
+            return ast.copy_location(ast.Assign([n.target], n.value), n)
+    node = T().visit(node)
+    for x in ast.walk(node):
+        if hasattr(x, "body") and isinstance(x.body, list) and not x.body:
+            x.body = [ast.Pass()]
+    ast.fix_missing_locations(node)
+    text = ast.unparse(node)
+    return [(t.type, t.string) for t in tokenize.generate_tokens(io.StringIO(text).readline)
+            if t.type not in (tokenize.NEWLINE, tokenize.NL, tokenize.INDENT, tokenize.DEDENT, tokenize.COMMENT, tokenize.ENDMARKER)], text
+
+
+_LEAF_OPS = {"<", "<=", ">", ">=", "==", "!=", "+", "-", "*", "//", "%", "<<", ">>", "&", "|", "^", "and", "or", "is", "in", "/", "**"}
+_KEYWORDS = {"if", "else", "elif", "for", "while", "return", "raise", "try", "except", "finally", "with", "def", "lambda", "class", "not", "pass", "break", "continue", "yield", "del",
+             "global", "nonlocal", "assert", "import", "from", "as", "await", "async"}
+
+
+def source_mutation(code_fn, ref_fn, limit=2):
+    """-> (reference token, code token) pairs when the function as written is the reviewed one with at most `limit` leaf
+    tokens (a name, a literal, an operator) exchanged in place -- every other token identical, same order -- and the exchange
+    is not a renaming (the old name still occurs in the function, or the new one already did); else None.
+    Such an edit leaves the structure alone and changes what one expression means: the canonical forms (which already equate
+    the spellings the engine can prove equal) differ, and there is nothing else the difference could be."""
+    import tokenize
+    if not isinstance(code_fn, (ast.FunctionDef, ast.AsyncFunctionDef)) or not isinstance(ref_fn, (ast.FunctionDef, ast.AsyncFunctionDef)):
+        return None
+    try:
+        tc, _ = _source_tokens(code_fn)
+        tr, _ = _source_tokens(ref_fn)
+    except Exception:
+        return None
+    if len(tc) != len(tr):
+        return None
+    diffs = [(a, b) for a, b in zip(tr, tc) if a != b]
+    if not diffs or len(diffs) > limit:
+        return None
+    names_c = {t[1] for t in tc if t[0] == tokenize.NAME}
+    names_r = {t[1] for t in tr if t[0] == tokenize.NAME}
+    for (ta, a), (tb, b) in diffs:
+        for tt, v in ((ta, a), (tb, b)):
+            if tt == tokenize.OP and v not in _LEAF_OPS:
+                return None
+            if tt == tokenize.NAME and v in _KEYWORDS and v not in _LEAF_OPS:
+                return None
+            if tt not in (tokenize.OP, tokenize.NAME, tokenize.NUMBER, tokenize.STRING):
+                return None
+        if ta == tokenize.NAME and tb == tokenize.NAME and a not in _LEAF_OPS and b not in _LEAF_OPS and a not in names_c and b not in names_r:
+            return None         # a local (or a helper) renamed: not an exchange
+    return [(a, b) for (_ta, a), (_tb, b) in diffs]
+
+
+_STATEFUL_CALLS = {"append", "extend", "insert", "pop", "remove", "sort", "reverse", "clear", "update", "setdefault", "popitem", "add", "discard",
+                   "write", "writelines", "seek", "truncate", "appendleft", "popleft"}
+
+
+def captured_mutations(inner, outer):
+    """locals of the enclosing function that the closure changes in place (mutator / stream call as receiver, item or
+    attribute store, nonlocal rebinding): whatever one call leaves there, the next call of the closure finds"""
+    if not isinstance(inner, (ast.FunctionDef, ast.AsyncFunctionDef)) or not isinstance(outer, (ast.FunctionDef, ast.AsyncFunctionDef)):
+        return set()
+    own = {a.arg for a in inner.args.args + inner.args.posonlyargs + inner.args.kwonlyargs}
+    if inner.args.vararg:
+        own.add(inner.args.vararg.arg)
+    if inner.args.kwarg:
+        own.add(inner.args.kwarg.arg)
+    nonloc = {n for x in ast.walk(inner) if isinstance(x, ast.Nonlocal) for n in x.names}
+    own |= {n.id for n in ast.walk(inner) if isinstance(n, ast.Name) and isinstance(n.ctx, (ast.Store, ast.Del))} - nonloc
+    outer_locals = set()
+    for x in ast.walk(outer):
+        if any(x is y for y in ast.walk(inner)):
+            continue
+        if isinstance(x, ast.Name) and isinstance(x.ctx, ast.Store):
+            outer_locals.add(x.id)
+    out = set(nonloc & outer_locals)
+    for x in ast.walk(inner):
+        base = None
+        if isinstance(x, ast.Call) and isinstance(x.func, ast.Attribute) and x.func.attr in _STATEFUL_CALLS:
+            base = x.func.value
+        elif isinstance(x, (ast.Subscript, ast.Attribute)) and isinstance(x.ctx, (ast.Store, ast.Del)):
+            base = x.value
+        while isinstance(base, (ast.Subscript, ast.Attribute)):
+            base = base.value
+        if isinstance(base, ast.Name) and base.id not in own and base.id in outer_locals:
+            out.add(base.id)
+    return out
+
+
 def _free_loads(fn):
     own = {a.arg for a in fn.args.args + fn.args.posonlyargs + fn.args.kwonlyargs}
     if fn.args.vararg:
@@ -3206,6 +3329,19 @@ def reference_status(ctx, fi, ref_source, ref_names, int_names=None, leaf=None, 
                 if st2 == "same":
                     status = "unrecognised"
                     details = [("renamed", "capture", ", ".join(sorted(ren.values())), ", ".join(sorted(ren)), 0.0)]
+        if status != "same" and env_ref is not None:
+            # a closure that now changes, in place, an object of its enclosing function which the reviewed closure made for
+            # itself on every call (or did not have): state shared between calls
+            cm_code = captured_mutations(getattr(fi, "original", fi).node, getattr(fi.parent, "node", None))
+            cm_ref = captured_mutations(ref_node, outer_ref)
+            if cm_code and not cm_ref:
+                status = "differs"
+                details = [("state", "effect", "(the reviewed closure changes no object of its enclosing function)", "changes %s of the enclosing function in place" % ", ".join(sorted(cm_code)), 1.0)] + list(details)
+        if status in ("near", "unrecognised"):
+            sm_ = source_mutation(getattr(fi, "original", fi).node, ref_node)
+            if sm_:
+                status = "differs"
+                details = [("source", "token", " , ".join(a for a, _b in sm_), " , ".join(b for _a, b in sm_), 1.0)] + list(details)
         if status != "same":
             ns = new_state(s_code, s_ref, getattr(fi.node, "name", ""), tree)
             if ns:
@@ -3228,7 +3364,7 @@ def against_reference(ctx, fi, ref_source, ref_names, key, int_names=None, leaf=
         ctx.ok(what or key, sample={"function": fi.qualname, "reference": ref_name, "components": len(s_ref.items), "example": repr(s_ref.items[0])[:160] if s_ref.items else ""} if sample else None)
         return True
     if status == "differs":
-        for d in details[:4]:
+        for d in (details[:1] if details and details[0][0] in ("state", "source") else details[:4]):
             ctx.bad("%s:%s" % (key, d[1]), where, "%s computes `%s` where the reference (%s) computes `%s`" % (fi.qualname, (d[3] or "")[:300], ref_name, (d[2] or "")[:300]))
         return False
     ctx.undecided(key, where, "%s is organised differently from the reference transcription (%d components differ, e.g. %s); this rule gives no verdict on it"
